@@ -1,7 +1,7 @@
 /-
   Types of the DSL (synth/syntax/type_system.py) as rose trees `PS.Tree TyL`.
-  A label carries the Python class (`kind`) and the name (type name / variable name / generic
-  name; "" for arrows, sums and UnknownType).  Children:
+  A label carries the Python class and, where the class has one, the name (type name /
+  variable name / generic name).  Children:
     prim, poly, unknown : none        fpoly : the allowed types (`FixedPolymorphicType.types`)
     arrow : [type_in, type_out]       generic / sum : `types`
   `Generic.infix` only influences `__str__` (it takes no part in `__eq__`/`__hash__`) and is
@@ -15,40 +15,58 @@ inductive TyKind where
   | prim | poly | fpoly | arrow | generic | sum | unknown
   deriving DecidableEq, Repr, Inhabited
 
-structure TyL where
-  kind : TyKind
-  name : String
+inductive TyL where
+  | prim (name : String)
+  | poly (name : String)
+  | fpoly (name : String)
+  | arrow
+  | generic (name : String)
+  | sum
+  | unknown
   deriving DecidableEq, Repr, Inhabited
+
+def TyL.kind : TyL → TyKind
+  | .prim _ => .prim | .poly _ => .poly | .fpoly _ => .fpoly | .arrow => .arrow
+  | .generic _ => .generic | .sum => .sum | .unknown => .unknown
+
+/-- the name; "" for the classes without one -/
+def TyL.name : TyL → String
+  | .prim n | .poly n | .fpoly n | .generic n => n
+  | _ => ""
 
 abbrev Ty := Tree TyL
 
 namespace Ty
 
-def prim (n : String) : Ty := .node ⟨.prim, n⟩ []
-def poly (n : String) : Ty := .node ⟨.poly, n⟩ []
-def fpoly (n : String) (alts : List Ty) : Ty := .node ⟨.fpoly, n⟩ alts
-def arrow (a b : Ty) : Ty := .node ⟨.arrow, ""⟩ [a, b]
-def generic (n : String) (args : List Ty) : Ty := .node ⟨.generic, n⟩ args
-def sum (alts : List Ty) : Ty := .node ⟨.sum, ""⟩ alts
-def unknown : Ty := .node ⟨.unknown, ""⟩ []
+def prim (n : String) : Ty := .node (.prim n) []
+def poly (n : String) : Ty := .node (.poly n) []
+def fpoly (n : String) (alts : List Ty) : Ty := .node (.fpoly n) alts
+def arrow (a b : Ty) : Ty := .node .arrow [a, b]
+def generic (n : String) (args : List Ty) : Ty := .node (.generic n) args
+def sum (alts : List Ty) : Ty := .node .sum alts
+def unknown : Ty := .node .unknown []
 /-- `List = GenericFunctor("list")` -/
 def list (a : Ty) : Ty := generic "list" [a]
 /-- `UNIT = PrimitiveType("unit")` -/
 def unit : Ty := prim "unit"
 
 /-- `PolymorphicType` or its subclass `FixedPolymorphicType` -/
-def isVarL (l : TyL) : Bool := l.kind == .poly || l.kind == .fpoly
+def isVarL : TyL → Bool
+  | .poly _ | .fpoly _ => true
+  | _ => false
 /-- the classes whose methods recurse into their components: Arrow, Generic, Sum -/
-def isInnerL (l : TyL) : Bool := l.kind == .arrow || l.kind == .generic || l.kind == .sum
+def isInnerL : TyL → Bool
+  | .arrow | .generic _ | .sum => true
+  | _ => false
 
 /-- type_system.py:412-418 `Arrow.returns` (36-40 for the other classes) -/
 def returns : Ty → Ty
-  | .node ⟨.arrow, _⟩ [_, b] => returns b
+  | .node .arrow [_, b] => returns b
   | t => t
 
 /-- type_system.py:420-426 `Arrow.arguments` (42-46 for the other classes) -/
 def arguments : Ty → List Ty
-  | .node ⟨.arrow, _⟩ [a, b] => a :: arguments b
+  | .node .arrow [a, b] => a :: arguments b
   | _ => []
 
 /-- `FunctionType(*args, ret)` (type_helper.py:29-37) -/
@@ -61,8 +79,8 @@ mutual
       `max` of an empty sequence raises in Python; the model gives 0. -/
   def size : Ty → Nat
     | .node l ks =>
-      match l.kind with
-      | .arrow | .generic => 1 + sizeSum ks
+      match l with
+      | .arrow | .generic _ => 1 + sizeSum ks
       | .sum => sizeMax ks
       | _ => 1
   def sizeSum : List Ty → Nat
@@ -85,7 +103,7 @@ end
 mutual
   /-- does a `Sum` occur (outside the restriction list of a type variable)? -/
   def hasSum : Ty → Bool
-    | .node l ks => l.kind == .sum || (isInnerL l && anyHasSum ks)
+    | .node l ks => l == .sum || (isInnerL l && anyHasSum ks)
   def anyHasSum : List Ty → Bool
     | [] => false
     | t :: ts => hasSum t || anyHasSum ts
@@ -95,11 +113,11 @@ mutual
   /-- `__str__` (non-infix generics): type_system.py:188, 271, 303, 400-403, 509-514, 603 -/
   def toString : Ty → String
     | .node l ks =>
-      match l.kind with
-      | .prim | .poly | .fpoly => l.name
+      match l with
+      | .prim n | .poly n | .fpoly n => n
       | .unknown => "UnknownType"
       | .sum => "[" ++ " | ".intercalate (toStrings ks) ++ "]"
-      | .generic => " ".intercalate (toStrings ks) ++ " " ++ l.name
+      | .generic n => " ".intercalate (toStrings ks) ++ " " ++ n
       | .arrow =>
         match toStrings ks with
         | [a, b] => "(" ++ a ++ " -> " ++ b ++ ")"
@@ -112,11 +130,11 @@ end
 /-- shape invariant of the Python classes: leaves have no components, an arrow has exactly
     two, a `Sum` built by `|` has at least two alternatives -/
 def wfNode (l : TyL) (n : Nat) : Bool :=
-  match l.kind with
-  | .prim | .poly | .unknown => n == 0
+  match l with
+  | .prim _ | .poly _ | .unknown => n == 0
   | .arrow => n == 2
-  | .sum => 2 ≤ n
-  | .fpoly | .generic => true
+  | .sum => decide (2 ≤ n)
+  | .fpoly _ | .generic _ => true
 
 mutual
   def wf : Ty → Bool
